@@ -44,7 +44,8 @@ def collect_clone_seq(s: SeqOf(TSNode), code: Str) -> SeqOf(CloneCallT):
 
 
 @contract(F + "RustCloneAnalyzer._find_clone_recursive", props=["C17", "C12"],
-          types=dict(node=TSNode, code=Str, calls=SeqOf(CloneCallT), method_name=Str, pattern=Opt(Str)), modifies=["calls"])
+          types=dict(node=TSNode, code=Str, calls=SeqOf(CloneCallT), method_name=Str, pattern=Opt(Str)), modifies=["calls"],
+          loop_split_unchecked=True)  # the feasibility queries for `rest` empty / non-empty time out (2.4 s each) here
 class FindCloneRecursive:
     def requires(node, code, calls):
         return node is not None
